@@ -10,6 +10,7 @@ mod c06;
 mod c08;
 mod c09;
 mod c10;
+mod c11;
 mod c17;
 mod c18;
 mod wire;
@@ -38,6 +39,8 @@ fn main() {
         "version" => println!("{}", pgp::VERSION),
         "c14" => c14::run(&cases, &out, &tier, seed),
         "c10" => c10::run(&cases, &out, &tier, seed),
+        "c11" => c11::run(&cases, &out, &tier, seed, "c11"),
+        "c13" => c11::run(&cases, &out, &tier, seed, "c13"),
         "c02" => c02::run(&cases, &out, &tier, seed),
         "c05" => c05::run(&cases, &out, &tier, seed),
         "c08" => c08::run(&cases, &out, &tier, seed),
